@@ -300,9 +300,10 @@ impl RedbKVVStore {
 //@sub /let mut result = Vec::new\(\);/ => let mut result: Vec<KVV> = Vec::new();
 //@sub /for item in table\.range\(prefix\.\.\)\.vx_expect\(\) \{/ => for item in it: vx_rng.iter() {
 //@sub /let \(key, vv\) = item\.vx_expect\(\);/ => let key = &item.0; let vv = &item.1;
-//@sub /key\.value\(\)\.starts_with\(prefix\)/ => vx_starts_with(key.as_str(), prefix)
+//@sub /key\.value\(\)/ => key.as_str()
+//@sub /([\w.]+(?:\(\))?)\.starts_with\(prefix\)/ => vx_starts_with(\1, prefix)
 //@sub /vv\.value\(\)/ => vv.as_slice()
-//@sub /key\.value\(\)\.to_string\(\)/ => vx_to_string(key.as_str())
+//@sub /([\w.]+(?:\(\))?)\.to_string\(\)/ => vx_to_string(\1)
 //@sub /Ok\(Iter\(result\.into_iter\(\)\)\)/ => Ok(VxIter(result))
 //@loop 1
             invariant_except_break result@.len() == it.index@,
